@@ -100,35 +100,65 @@ func Commit(db *NoKV.DB, latches *latch.Manager, req *pb.CommitRequest) *pb.KeyE
 	defer guard.Release()
 
 	reader := NewReader(db)
-	for _, key := range req.Keys {
-		if len(key) == 0 {
-			return keyErrorAbort("empty key in commit")
+	// Validate every key before anything is written: a refusal on a later key must not
+	// leave the earlier keys of the same transaction committed.
+	locks := make([]*Lock, len(req.Keys))
+	for i, key := range req.Keys {
+		lock, kerr := commitCheck(reader, key, req)
+		if kerr != nil {
+			return kerr
 		}
-		lock, err := reader.GetLock(key)
-		if err != nil {
-			return keyErrorRetryable(err)
+		locks[i] = lock
+	}
+	for i, key := range req.Keys {
+		if locks[i] == nil {
+			continue // already committed earlier
 		}
-		if lock == nil {
-			write, _, err := reader.GetWriteByStartTs(key, req.StartVersion)
-			if err != nil {
-				return keyErrorRetryable(err)
-			}
-			if write != nil {
-				if write.Kind == pb.Mutation_Rollback {
-					return keyErrorAbort("transaction already rolled back")
-				}
-				continue
-			}
-			return keyErrorAbort("lock not found")
-		}
-		if lock.Ts != req.StartVersion {
-			return keyErrorLocked(key, lock)
-		}
-		if err := commitKey(db, reader, key, lock, req.CommitVersion); err != nil {
+		if err := commitKey(db, reader, key, locks[i], req.CommitVersion); err != nil {
 			return err
 		}
 	}
 	return nil
+}
+
+// commitCheck decides, without writing, whether key can be committed by req. It returns
+// the transaction's lock on the key, or nil when the key carries a commit record of the
+// transaction already, or the reason for the refusal.
+func commitCheck(reader *Reader, key []byte, req *pb.CommitRequest) (*Lock, *pb.KeyError) {
+	if len(key) == 0 {
+		return nil, keyErrorAbort("empty key in commit")
+	}
+	lock, err := reader.GetLock(key)
+	if err != nil {
+		return nil, keyErrorRetryable(err)
+	}
+	if lock == nil {
+		write, _, err := reader.GetWriteByStartTs(key, req.StartVersion)
+		if err != nil {
+			return nil, keyErrorRetryable(err)
+		}
+		if write != nil {
+			if write.Kind == pb.Mutation_Rollback {
+				return nil, keyErrorAbort("transaction already rolled back")
+			}
+			return nil, nil
+		}
+		return nil, keyErrorAbort("lock not found")
+	}
+	if lock.Ts != req.StartVersion {
+		return nil, keyErrorLocked(key, lock)
+	}
+	if lock.MinCommitTs > req.CommitVersion {
+		return nil, keyErrorCommitTsExpired(key, req.CommitVersion, lock.MinCommitTs)
+	}
+	write, _, err := reader.GetWriteByStartTs(key, lock.Ts)
+	if err != nil {
+		return nil, keyErrorRetryable(err)
+	}
+	if write != nil && write.Kind == pb.Mutation_Rollback {
+		return nil, keyErrorAbort("transaction already rolled back")
+	}
+	return lock, nil
 }
 
 // BatchRollback rolls back the provided keys for the given start version.
